@@ -599,6 +599,28 @@ func TestC07(t *testing.T) {
 				report(faults, msg)
 			}
 		}
+		// coordinated pairs: another payload IMPERSONATES the main record - the
+		// main payload is dropped, emptied or given the other payload's label
+		// while payload j is relabelled to the main type (only "no panic" is
+		// demanded of them)
+		mainTy := int32(target.bar.ArrowPayloads[0].Type)
+		for j := 1; j < np; j++ {
+			tj := int32(target.bar.ArrowPayloads[j].Type)
+			for _, pair := range [][]Fault{
+				{{Kind: "relabel", I: j, Type: mainTy}, {Kind: "drop", I: 0}},
+				{{Kind: "relabel", I: j, Type: mainTy}, {Kind: "empty", I: 0}},
+				{{Kind: "relabel", I: 0, Type: tj}, {Kind: "relabel", I: j, Type: mainTy}},
+				{{Kind: "relabel", I: j, Type: mainTy}, {Kind: "swap", I: 0, J: j}},
+			} {
+				faults := make([][]Fault, len(fc.Segments))
+				faults[0] = pair
+				msg := runSession(prep, faults, st)
+				rec.Case(true, fmt.Sprintf("%s/d%d/impersonation/%s/%s", signal, len(prep[0])-1, pair[1].Kind, target.bar.ArrowPayloads[j].Type), []string{"main_record_impersonated"}, nil)
+				if msg != "" {
+					report(faults, msg)
+				}
+			}
+		}
 		// random combinations, also on follow-up producers
 		ncombo := rapid.IntRange(4, 12).Draw(t, "ncombo")
 		for c := 0; c < ncombo; c++ {
